@@ -555,6 +555,23 @@ fn apply<T: Elem>(st: &mut State<T>, step: &Step, counts: &mut Vec<&'static str>
             st.slots[b] = Some(Slot { v, model, foreign: false });
             Ok(format!("Clone {}->{}", a, b))
         }
+        "CloneFrom" => {
+            // overwrite a live vector with a copy of another (Clone::clone_from); whether the
+            // destination keeps its buffer (and with it the module that owns it) is the
+            // implementation's choice and is read off the result
+            let (a, b) = (sl(step.arg(0)), sl(step.arg(1)));
+            if a == b || st.slots[a].is_none() || st.slots[b].is_none() {
+                return Ok("CloneFrom noop".into());
+            }
+            let src = st.slots[a].take().unwrap();
+            let dst = st.slots[b].as_mut().unwrap();
+            track(|| dst.v.clone_from(&src.v));
+            dst.model = src.model.clone();
+            let cv = view_of(&dst.v);
+            dst.foreign = cv.drop_fn.map(|f| f as usize) == Some(foreign_drop::<T> as usize);
+            st.slots[a] = Some(src);
+            Ok(format!("CloneFrom {}->{}", a, b))
+        }
         "Write" => {
             let s = sl(step.arg(0));
             if st.slots[s].as_ref().map(|x| x.model.is_empty()).unwrap_or(true) {
@@ -693,7 +710,7 @@ fn exec_t<T: Elem>(plan: &Plan, ctx: &mut RunCtx) -> VResult {
     simcore::check_no_leak("vec")
 }
 
-const OPS: [&str; 9] = ["FromVec", "Push", "Pop", "Insert", "Remove", "Reserve", "Clone", "Write", "Drop"];
+const OPS: [&str; 10] = ["FromVec", "Push", "Pop", "Insert", "Remove", "Reserve", "Clone", "Write", "Drop", "CloneFrom"];
 
 impl Engine for VecEngine {
     fn name(&self) -> &'static str {
@@ -709,7 +726,7 @@ impl Engine for VecEngine {
         p.set("elem", rng.range(0, 4));
         p.set("policy", rng.range(0, 3));
         let max_steps = if rng.chance(1, 2) { rng.range(3, 10) } else { rng.range(10, if thorough { 60 } else { 40 }) };
-        let mut w: Vec<u32> = vec![6, 16, 8, 10, 10, 4, 3, 6, 4];
+        let mut w: Vec<u32> = vec![6, 16, 8, 10, 10, 4, 3, 6, 4, 3];
         for i in 1..w.len() {
             if rng.chance(1, 6) {
                 w[i] = 0;
@@ -743,7 +760,7 @@ impl Engine for VecEngine {
                     p.push(t, op, &[s0, pos, oob as i64]);
                 }
                 "Reserve" => p.push(t, op, &[s0, *rng.pick(&[0, 1, 1, 2, 5, 17, 40]), party]),
-                "Clone" => p.push(t, op, &[s0, rng.below(pool as u64) as i64]),
+                "Clone" | "CloneFrom" => p.push(t, op, &[s0, rng.below(pool as u64) as i64]),
                 "Write" => p.push(t, op, &[s0, rng.range(0, 30), party]),
                 "Drop" => p.push(t, op, &[s0, party]),
                 _ => p.push(t, op, &[s0]),
